@@ -56,19 +56,35 @@ def gen_case(rng, big):
     nops = int(rng.integers(2, 8 if not big else 12))
     for _ in range(nops):
         if len(meta) >= MAXLIVE:
-            kinds = ['scale', 'shift', 'reverse']
+            kinds = ['scale', 'shift', 'reverse', 'mat']
         else:
-            kinds = ['rt', 'rt', 'rebuild', 'scaled', 'shifted', 'reversed', 'scale', 'shift', 'reverse']
+            kinds = ['rt', 'rt', 'rebuild', 'scaled', 'shifted', 'reversed', 'scale', 'shift', 'reverse', 'mat']
         op = str(rng.choice(kinds))
+        if op == 'rt' and rng.random() < 0.2:
+            op = 'rtas'
         i = int(rng.integers(0, len(meta)))
         sysm, ndim, isint = meta[i]
         if op in ('shift', 'shifted') and sysm == 'p':
             op = 'reversed' if op == 'shifted' else 'reverse'
-        if isint and op in ('shift', 'scale'):
+        if isint and op in ('shift', 'scale', 'mat'):
             op = 'reverse'      # integer-dtype twins exist only to be compared and hashed
         if isint and op in ('shifted', 'scaled'):
             op = 'reversed'
-        if op == 'rt':
+        if op == 'rtas':
+            # from_dict of the dictionary with its two names replaced: the other system (2-D), an unknown system, an unknown type
+            r = rng.random()
+            other = {'c': 'polar', 'p': 'cartesian'}[sysm]
+            if r < 0.45 and ndim == 2 and not isint:
+                ops.append(['rtas', i, other, None])
+                meta.append((other[0], ndim, isint))
+            elif r < 0.6:
+                ops.append(['rtas', i, {'c': 'cartesian', 'p': 'polar'}[sysm], None])
+                meta.append(meta[i])
+            elif r < 0.8:
+                ops.append(['rtas', i, str(rng.choice(['spherical', 'Cartesian', 'polar_'])), None])
+            else:
+                ops.append(['rtas', i, None, str(rng.choice(['regular_', 'Separated', 'unstructured ', 'coords']))])
+        elif op == 'rt':
             ops.append(['rt', i, str(rng.choice(['copy', 'dict', 'pickle']))])
             meta.append(meta[i])
         elif op == 'rebuild':
@@ -88,6 +104,53 @@ def gen_case(rng, big):
             if op == 'reversed':
                 meta.append(meta[i])
     return {'ops': ops, 'shared': shared}
+
+
+TINY = [2.0 ** -54, 2.0 ** -53, -2.0 ** -54, 2.0 ** -60, 1e-17, -1e-20, 2.0 ** -1074, 1e-300]
+INEXACT = [0.1, -0.3, 1.0 / 3.0, 1e-3, 2.0 ** -52, 3 * 2.0 ** -53, 1e16, 2.0 ** 53, 0.7]
+
+
+def gen_float_case(rng):
+    """Float-shift histories (Cartesian float64 grids, values not necessarily dyadic): in-place and
+    copying shifts by amounts that are absorbed (below half an ulp of every coordinate), partly absorbed,
+    or rounded — the model rounds every stored sum to nearest-even binary64 (`shiftf`), so representation,
+    `==` matrix and hash are still compared exactly."""
+    spec = G.gen_spec(rng, maxn=5, polar_ok=False)
+    r = rng.random()
+    if r < 0.5:
+        # non-dyadic values: the float *is* a rational, the model gets exactly that rational
+        k = float(rng.choice([1.1, 0.3, 1e-3, 7.7e5, 1.0 / 3.0]))
+        if spec['kind'] == 'reg':
+            spec['data'][0] = [v * k for v in spec['data'][0]]
+            spec['data'][2] = [v * k for v in spec['data'][2]]
+        else:
+            spec['data'] = [[v * k for v in a] for a in spec['data']]
+    ndim = spec_ndim(spec)
+    ops = [['new', spec]]
+    nlive = 1
+    for _ in range(int(rng.integers(2, 6))):
+        i = int(rng.integers(0, nlive))
+        c = rng.random()
+        if c < 0.15 and nlive < MAXLIVE:
+            ops.append(['rt', i, 'copy'])
+            nlive += 1
+            continue
+        mode = str(rng.choice(['tiny', 'tiny', 'inexact', 'mixed', 'zero-but-one']))
+        if mode == 'tiny':
+            b = [float(rng.choice(TINY)) for _ in range(ndim)]
+        elif mode == 'inexact':
+            b = [float(rng.choice(INEXACT)) for _ in range(ndim)]
+        elif mode == 'mixed':
+            b = [float(rng.choice(TINY + INEXACT + [0.0, 0.5])) for _ in range(ndim)]
+        else:
+            b = [0.0] * ndim
+            b[int(rng.integers(0, ndim))] = float(rng.choice(TINY))
+        if c < 0.6 and nlive < MAXLIVE:
+            ops.append(['shiftedf', i, b, str(rng.choice(['float64', 'list', 'tuple']))])
+            nlive += 1
+        else:
+            ops.append(['shiftf', i, b, str(rng.choice(['float64', 'list', 'tuple']))])
+    return {'ops': ops, 'shared': False, 'float': True}
 
 
 def twin_of(rng, spec):
@@ -157,6 +220,50 @@ def observe(grids):
     return {'snaps': snaps, 'eq': eq, 'hash': hashes}
 
 
+LAST = {}
+
+
+def canon_dict(tree):
+    """what `Grid.to_dict()` wrote, as plain Python values (names verbatim)"""
+    c = tree['coords']
+    w = tree['weights']
+    out = {'sys': tree['coordinate_system'], 'type': c['type'], 'delta': [], 'dims': [], 'zero': [], 'arrays': [],
+           'w': None if w is None else float(w) if np.ndim(w) == 0 else [float(v) for v in np.asarray(w).ravel()],
+           'keys': sorted(tree.keys()), 'ckeys': sorted(c.keys())}
+    if 'delta' in c:
+        out['delta'] = [float(v) for v in c['delta']]
+        out['dims'] = [int(v) for v in c['dims']]
+        out['zero'] = [float(v) for v in c['zero']]
+    if 'separated_coords' in c:
+        out['arrays'] = [[float(v) for v in a] for a in c['separated_coords']]
+    if 'coords' in c:
+        out['arrays'] = [[float(v) for v in a] for a in c['coords']]
+    return out
+
+
+def compare_dict(ans, real, snap):
+    """None, or the first difference between the model's `toDict` and what `to_dict()` wrote for a grid
+    whose snapshot is `snap`"""
+    t = ans.split(' ')
+    if t[0] != 'ok' or len(t) != 8:
+        return 'model answered %r' % ans
+    want_keys = {'reg': ['delta', 'dims', 'type', 'zero'], 'sep': ['separated_coords', 'type'], 'uns': ['coords', 'type']}[snap['kind']]
+    if real['keys'] != ['coordinate_system', 'coords', 'weights'] or real['ckeys'] != want_keys:
+        return 'keys %r / %r' % (real['keys'], real['ckeys'])
+    if t[1] != real['sys'] or t[2] != real['type']:
+        return 'names %s/%s vs %s/%s' % (t[1], t[2], real['sys'], real['type'])
+    if not G.lists_close(G.parse_rat_list(t[3]), real['delta']) or not G.lists_close(G.parse_rat_list(t[5]), real['zero']):
+        return 'delta/zero %s %s vs %r %r' % (t[3], t[5], real['delta'], real['zero'])
+    if [int(x) for x in G.parse_rat_list(t[4])] != real['dims']:
+        return 'dims %s vs %r' % (t[4], real['dims'])
+    ma = G.parse_rat_lists(t[6])
+    if len(ma) != len(real['arrays']) or not all(G.lists_close(a, b) for a, b in zip(ma, real['arrays'])):
+        return 'arrays %s vs %r' % (t[6][:120], real['arrays'])
+    if not G.w_same(G.parse_w(t[7]), real['w']):
+        return 'weights %s vs %r' % (t[7][:80], real['w'])
+    return None
+
+
 def apply_real(grids, op, pool=None, shared=False):
     """Apply one op to the list of live hcipy grids. Returns status string."""
     import hcipy
@@ -166,6 +273,21 @@ def apply_real(grids, op, pool=None, shared=False):
             g = G.build(op[1], pool)
             G.validate(g)           # a grid that cannot report its own coordinates / points counts as a failed construction
             grids.append(g)
+        elif kind == 'rt' and op[2] == 'dict':
+            tree = grids[op[1]].to_dict()
+            LAST['dict'] = canon_dict(tree)
+            grids.append(hcipy.Grid.from_dict(tree))
+        elif kind == 'rtas':
+            tree = grids[op[1]].to_dict()
+            LAST['dict'] = canon_dict(tree)
+            if op[2] is not None:
+                tree['coordinate_system'] = op[2]
+            if op[3] is not None:
+                tree['coords']['type'] = op[3]
+            try:
+                grids.append(hcipy.Grid.from_dict(tree))
+            except KeyError:
+                return 'err:key'
         elif kind == 'rt':
             grids.append(G.roundtrip(grids[op[1]], op[2]))
         elif kind == 'rebuild':
@@ -185,9 +307,14 @@ def apply_real(grids, op, pool=None, shared=False):
                     r = grids[op[1]].scale(a)
                     if r is not grids[op[1]]:
                         return 'err:not-self'
-        elif kind in ('shifted', 'shift'):
+        elif kind == 'mat':
+            import warnings
+            with warnings.catch_warnings():
+                warnings.simplefilter('ignore')
+                grids[op[1]].weights        # the getter caches the automatic weights
+        elif kind in ('shifted', 'shift', 'shiftedf', 'shiftf'):
             b = G.as_form(op[2], op[3] if len(op) > 3 else 'float64')
-            if kind == 'shifted':
+            if kind in ('shifted', 'shiftedf'):
                 grids.append(grids[op[1]].shifted(b))
             else:
                 grids[op[1]].shift(b)
@@ -207,6 +334,10 @@ def apply_real(grids, op, pool=None, shared=False):
 def model_op_lines(op, pool):
     if op[0] == 'new':
         return G.new_lines('C10', op[1], pool)
+    if op[0] == 'rtas' or (op[0] == 'rt' and op[2] == 'dict'):
+        return ['C10 todict %d' % op[1], model_op_line(op)]
+    if op[0] in ('shiftf', 'shiftedf'):
+        return ['C10 shiftvals %d' % op[1], 'C10 absorbs %d %s' % (op[1], rat_list(op[2])), model_op_line(op)]
     return [model_op_line(op)]
 
 
@@ -214,13 +345,17 @@ def model_op_line(op):
     kind = op[0]
     if kind == 'new':
         return G.new_line('C10', op[1])
+    if kind == 'rtas':
+        return 'C10 rtdictas %d %s %s' % (op[1], op[2] if op[2] is not None else '=', (op[3] if op[3] is not None else '=').replace(' ', '_'))
+    if kind == 'rt' and op[2] == 'dict':
+        return 'C10 rtdict %d' % op[1]
     if kind in ('rt', 'rebuild'):
         return 'C10 copy %d' % op[1]
     if kind in ('scaled', 'scale'):
         a = op[2]
         arg = ('s:' + rat(a[1])) if a[0] == 's' else ('v:' + rat_list(a[1]))
         return 'C10 %s %d %s' % (kind, op[1], arg)
-    if kind in ('shifted', 'shift'):
+    if kind in ('shifted', 'shift', 'shiftedf', 'shiftf'):
         return 'C10 %s %d %s' % (kind, op[1], rat_list(op[2]))
     return 'C10 %s %d' % (kind, op[1])
 
@@ -231,8 +366,10 @@ def run_real(case):
     pool = G.Pool()
     for op in case['ops']:
         before = [G.snap(g) for g in grids]
+        LAST.clear()
         status = apply_real(grids, op, pool, case.get('shared', False))
-        steps.append({'op': op, 'status': status, 'before': before, 'obs': observe(grids), 'caller_changed': pool.changed(),
+        steps.append({'op': op, 'status': status, 'before': before, 'dict': LAST.get('dict'),
+                      'shared': count_shared([a for g in grids for a in coord_arrays(g)] + list(pool.arrays)), 'obs': observe(grids), 'caller_changed': pool.changed(),
                       'pool': [a.tolist() for a in pool.arrays], 'pool_keys': list(pool.keys)})
         if status != 'ok':
             break       # later ops refer to slots that may not exist; the history ends here
@@ -242,7 +379,7 @@ def run_real(case):
 # ---------------------------------------------------------------------------------------------
 # the property itself on the observations (independent of the Lean model)
 
-INPLACE = ('scale', 'shift', 'reverse')
+INPLACE = ('scale', 'shift', 'reverse', 'shiftf', 'mat')
 
 
 def expected_effect(op, s):
@@ -257,7 +394,9 @@ def expected_effect(op, s):
         if kind == 'reg':
             return [[d * x for d, x in zip(data[0], f)], data[1], [z * x for z, x in zip(data[2], f)]]
         return [[v * x for v in a] for a, x in zip(data, f)]
-    if op[0] == 'shift':
+    if op[0] == 'mat':
+        return data
+    if op[0] in ('shift', 'shiftf'):
         b = op[2]
         if kind == 'reg':
             return [data[0], data[1], [z + x for z, x in zip(data[2], b)]]
@@ -265,6 +404,11 @@ def expected_effect(op, s):
     if kind == 'reg':
         return [[-d for d in data[0]], data[1], [z + d * (n - 1) for d, n, z in zip(*data)]]
     return [a[::-1] for a in data]
+
+
+def unknown_names(op):
+    """an `rtas` op whose dictionary names a coordinate system or coordinate type that does not exist"""
+    return op[2] not in (None, 'cartesian', 'polar') or op[3] is not None
 
 
 def oracle(steps):
@@ -280,11 +424,13 @@ def oracle(steps):
         opname = op[0]
         if status != 'ok':
             src = before[op[1]] if opname != 'new' else None
-            undefined_weights = (opname in ('scale', 'scaled') and src is not None and src['sys'] == 'c' and src['kind'] == 'sep'
+            undefined_weights = (opname in ('scale', 'scaled', 'mat') and src is not None and src['sys'] == 'c' and src['kind'] == 'sep'
                                  and src['w'] is None and any(len(a) < 2 for a in src['data']))
             if opname == 'new':
                 bad.append(('new-raises', 'constructing (or reading the points of) a %s %s grid with argument forms %r / int=%r raised %s' % (
                     op[1]['sys'], op[1]['kind'], op[1].get('forms'), op[1].get('int'), status[4:])))
+            elif opname == 'rtas' and status == 'err:key' and unknown_names(op):
+                pass        # from_dict of a dictionary with an unknown name: KeyError is the specified answer
             elif not undefined_weights:
                 bad.append(('op-raises %s' % opname, '%s raised %s on a %s %s grid' % (
                     opname, status[4:], src['sys'] if src else '-', src['kind'] if src else '-')))
@@ -329,13 +475,38 @@ def oracle(steps):
         for k in range(len(before)):
             if k == target:
                 want = expected_effect(op, before[k])
-                if not same_data(want, snaps[k]['data']):
+                if opname == 'shiftf':
+                    # float shift: every stored sum is the IEEE sum, bit for bit (absorbed shifts leave the value as it was)
+                    if [list(map(float, a)) for a in want] != [list(map(float, a)) for a in snaps[k]['data']]:
+                        bad.append(('mutate-identity shiftf', 'in-place float shift by %r did not store fl(x + b) for every coordinate' % (op[2],)))
+                elif not same_data(want, snaps[k]['data']):
                     bad.append(('mutate-identity %s' % opname, 'in-place %s did not change the coordinates as specified' % opname))
+                if opname == 'mat' and (obs['eq'][k][k] is not True):
+                    bad.append(('mat-identity', 'reading .weights changed the identity of the grid'))
                 changed = G.ident(before[k]) != ids[k]
                 continue
             if G.ident(before[k]) != ids[k] or before[k]['w'] != snaps[k]['w']:
                 bad.append(('alias %s' % opname, '%s on grid %s changed another live grid (%s %s)' % (
                     opname, op[1] if opname != 'new' else '-', snaps[k]['sys'], snaps[k]['kind'])))
+        if opname == 'shiftedf':
+            # the copying form: fresh grid with fl(x + b); equal to the source iff every sum was absorbed
+            want = expected_effect(['shiftf', op[1], op[2]], before[op[1]])
+            absorbed = [list(map(float, a)) for a in want] == [list(map(float, a)) for a in before[op[1]]['data']]
+            if [list(map(float, a)) for a in want] != [list(map(float, a)) for a in snaps[n - 1]['data']]:
+                bad.append(('mutate-identity shiftf', 'shifted(%r) did not store fl(x + b) for every coordinate' % (op[2],)))
+            elif obs['eq'][op[1]][n - 1] is not absorbed:
+                bad.append(('float-shift-identity', 'g.shifted(%r) == g is %s although the stored values %s' % (
+                    op[2], obs['eq'][op[1]][n - 1], 'are all unchanged (shift absorbed)' if absorbed else 'changed')))
+            elif absorbed and obs['hash'][op[1]] != obs['hash'][n - 1]:
+                bad.append(('float-shift-identity', 'an absorbed shift changed the hash'))
+        if opname == 'rtas' and unknown_names(op):
+            bad.append(('from-dict-unknown-name', 'from_dict accepted a dictionary with coordinate_system=%r, type=%r and built a %s %s grid' % (
+                op[2], op[3], snaps[n - 1]['sys'], snaps[n - 1]['kind'])))
+        elif opname == 'rtas':
+            a, b = snaps[n - 1], snaps[op[1]]
+            if (a['sys'], a['kind'], a['data'], a['w']) != (op[2][0], b['kind'], b['data'], b['w']):
+                bad.append(('from-dict-names', 'from_dict of the dictionary of a %s %s grid with coordinate_system=%r is a %s %s grid with %s' % (
+                    b['sys'], b['kind'], op[2], a['sys'], a['kind'], 'the same values' if a['data'] == b['data'] else 'other values')))
         if opname in ('rt', 'rebuild'):
             if obs['eq'][op[1]][n - 1] is not True or obs['eq'][n - 1][op[1]] is not True:
                 bad.append(('eq-identical',
@@ -429,6 +600,10 @@ DIRECTED_SHARED = [
 DIRECTED = [
     # ragged separated grid: reflexivity, copies (D2)
     {'ops': [['new', S('c', 'sep', [[0.0, 1.0, 2.0], [0.0, 1.0]])], ['rt', 0, 'copy'], ['rt', 0, 'dict'], ['rt', 0, 'pickle'], ['rebuild', 0, False]]},
+    {'ops': [['new', S('c', 'reg', [[0.5, 0.25], [4, 3], [-1.0, 0.0]], 2.0)], ['rtas', 0, 'polar', None], ['rtas', 0, 'spherical', None],
+             ['rtas', 0, None, 'Regular'], ['rtas', 1, 'cartesian', None], ['rt', 1, 'dict']]},
+    {'ops': [['new', S('p', 'uns', [[1.0, 2.0, 0.5], [0.0, 1.0, 2.0]], [1.0, 2.0, 3.0])], ['rt', 0, 'dict'], ['rtas', 0, 'cartesian', None],
+             ['scale', 2, ['v', [2.0, -1.0]]], ['rt', 2, 'dict']]},
     {'ops': [['new', S('c', 'sep', [[0.0, 1.0], [0.0, 1.0, 3.0], [5.0]], 2.0)], ['rt', 0, 'copy'], ['reversed', 0], ['reversed', 2]]},
     # int vs float (D24)
     {'ops': [['new', S('c', 'reg', [[1.0, 1.0], [4, 4], [0.0, 0.0]])], ['new', S('c', 'reg', [[1.0, 1.0], [4, 4], [0.0, 0.0]], None, True)],
@@ -453,6 +628,18 @@ DIRECTED = [
 ]
 
 
+DIRECTED_FLOAT = [
+    # the caveat of `shift_changes`: a shift below half an ulp of every coordinate is absorbed (== stays True, same hash)
+    {'float': True, 'shared': False, 'ops': [['new', S('c', 'sep', [[1.0, 2.0, -1.5]])], ['shiftedf', 0, [2.0 ** -54]], ['shiftf', 0, [2.0 ** -54]], ['shiftedf', 0, [2.0 ** -52]]]},
+    {'float': True, 'shared': False, 'ops': [['new', S('c', 'reg', [[0.5], [3], [1.0]])], ['shiftedf', 0, [2.0 ** -54]], ['shiftedf', 0, [2.0 ** -52]], ['shiftf', 0, [2.0 ** -53]], ['shiftf', 0, [3 * 2.0 ** -53]]]},
+    # partly absorbed: the small coordinate moves, the large one does not
+    {'float': True, 'shared': False, 'ops': [['new', S('c', 'uns', [[1.0, 2.0 ** -30], [4.0, 0.0]])], ['shiftedf', 0, [2.0 ** -60, 2.0 ** -60]], ['shiftf', 0, [2.0 ** -60, 0.0]]]},
+    # inexact sums are rounded to nearest-even, ties included
+    {'float': True, 'shared': False, 'ops': [['new', S('c', 'sep', [[0.1, 0.2, 0.30000000000000004], [1.0, 1.0 + 2.0 ** -52]])], ['shiftedf', 0, [0.1, 2.0 ** -53]], ['shiftf', 0, [0.7, 3 * 2.0 ** -53]],
+                                              ['rt', 0, 'copy'], ['shiftedf', 2, [1e16, -1e-20]]]},
+]
+
+
 def check_case(ctx, case, label):
     steps = run_real(case)
     bad = oracle(steps)
@@ -461,6 +648,12 @@ def check_case(ctx, case, label):
     ctx.count('family:' + label)
     for st in steps:
         ctx.count('op:' + st['op'][0])
+        if st['op'][0] in ('shiftf', 'shiftedf') and st['status'] == 'ok':
+            src = st['before'][st['op'][1]]
+            want = expected_effect(['shiftf', st['op'][1], st['op'][2]], src)
+            same = [x == y for a, b in zip(want, src['data']) for x, y in zip(a, b)] if src['kind'] != 'reg' else [x == y for x, y in zip(want[2], src['data'][2])]
+            nz = any(v != 0 for v in st['op'][2])
+            ctx.count('float-shift:' + ('zero-shift' if not nz else 'absorbed' if all(same) else 'partly-absorbed' if any(same) else 'all-changed'))
         if st['status'] != 'ok':
             ctx.count('status:' + st['status'])
     last = steps[-1]['obs']
@@ -489,6 +682,277 @@ def model_requests(case):
     return lines, index
 
 
+# ---------------------------------------------------------------------------------------------
+# the reference model (Model/GridHeap.lean): arrays held by reference, which arrays are shared
+
+def coord_arrays(g):
+    """the ndarray objects the coordinates of a grid hold (what in-place operations write to)"""
+    c = g.coords
+    name = type(c).__name__
+    if name == 'RegularCoords':
+        return [c.delta, c.zero]
+    if name == 'SeparatedCoords':
+        return list(c.separated_coords)
+    return list(c.coords)
+
+
+def count_shared(arrays):
+    """number of pairs of array slots whose memory overlaps (the same object in two slots included)"""
+    from numpy.lib import array_utils
+    bounds = []
+    for a in arrays:
+        a = np.asarray(a)
+        if a.size:
+            bounds.append(array_utils.byte_bounds(a))
+    bounds.sort()
+    n = 0
+    for i in range(len(bounds)):
+        end = bounds[i][1]
+        j = i + 1
+        while j < len(bounds) and bounds[j][0] < end:
+            n += 1
+            j += 1
+    return n
+
+
+def ref_ops(opname, arg, snap):
+    """the array operations of an in-place scale / shift on a grid with snapshot `snap`"""
+    kind = snap['kind']
+    ndim = len(snap['data'][1]) if kind == 'reg' else len(snap['data'])
+    if opname == 'scale':
+        f = [arg[1]] * ndim if arg[0] == 's' else list(arg[1])
+        if snap['sys'] == 'p':
+            f = [arg[1], 1.0]
+        if kind == 'reg':
+            return ['mv:' + rat_list(f), 'mv:' + rat_list(f)]
+        return ['ms:' + rat(x) for x in f]
+    b = list(arg)
+    if kind == 'reg':
+        return ['k', 'av:' + rat_list(b)]
+    return ['as:' + rat(x) for x in b]
+
+
+def snap_arrays(snap):
+    return [snap['data'][0], snap['data'][2]] if snap['kind'] == 'reg' else snap['data']
+
+
+def ref_plan(case, steps):
+    """`ref …` requests mirroring a history on the reference model, and what to compare after each step:
+    (index of the `shared` answer, real number of shared array pairs, [(index of `val`, real arrays)])"""
+    lines = ['C10 ref reset']
+    checks = []
+    nobj = 0
+    gobj = []           # object index of every live grid
+    pobj = {}           # object index of every caller array (by pool index)
+    for st in steps:
+        op, kind = st['op'], st['op'][0]
+        if st['status'] != 'ok' or kind in ('shiftf', 'shiftedf'):
+            break
+        snaps = st['obs']['snaps']
+        if kind == 'new' and op[1].get('shared') and not op[1].get('int'):
+            spec = op[1]
+            arrs = [spec['data'][0], spec['data'][2]] if spec['kind'] == 'reg' else spec['data']
+            idx = []
+            for a in arrs:
+                k = st['pool_keys'].index(tuple(float(v) for v in a))
+                if k not in pobj:
+                    lines.append('C10 ref new ' + G.rat_lists([list(st['pool_keys'][k])]))
+                    pobj[k] = nobj
+                    nobj += 1
+                idx.append(pobj[k])
+            w = spec['w']
+            if isinstance(w, list):
+                k = st['pool_keys'].index(tuple(float(v) for v in w))
+                if k not in pobj:
+                    lines.append('C10 ref new ' + G.rat_lists([list(st['pool_keys'][k])]))
+                    pobj[k] = nobj
+                    nobj += 1
+            lines.append('C10 ref construct [' + ','.join(str(i) for i in idx) + ']')
+            gobj.append(nobj)
+            nobj += 1
+        elif kind in ('new', 'rebuild', 'reversed'):
+            lines.append('C10 ref new ' + G.rat_lists(snap_arrays(snaps[-1])))
+            gobj.append(nobj)
+            nobj += 1
+        elif kind == 'reverse':
+            # the arrays of the grid are re-bound to new ones (`x = x[::-1]`, `delta = -delta`): a fresh object takes its place
+            lines.append('C10 ref new ' + G.rat_lists(snap_arrays(snaps[op[1]])))
+            gobj[op[1]] = nobj
+            nobj += 1
+        elif kind in ('rt', 'rtas'):
+            lines.append('C10 ref copy %d' % gobj[op[1]])
+            gobj.append(nobj)
+            nobj += 1
+        elif kind in ('scale', 'shift'):
+            lines.append('C10 ref inplace %d %s' % (gobj[op[1]], ' '.join(ref_ops(kind, op[2], st['before'][op[1]]))))
+        elif kind in ('scaled', 'shifted'):
+            lines.append('C10 ref copied %d %s' % (gobj[op[1]], ' '.join(ref_ops(kind[:-1], op[2], st['before'][op[1]]))))
+            gobj.append(nobj)
+            nobj += 1
+        elif kind == 'mat':
+            pass
+        else:
+            raise MachineryError('reference model: unknown op %r' % (op,))
+        if len(gobj) != len(snaps):
+            raise MachineryError('reference model: %d objects for %d live grids' % (len(gobj), len(snaps)))
+        shared_at = len(lines)
+        lines.append('C10 ref shared')
+        vals = []
+        for k, o in enumerate(gobj):
+            vals.append((len(lines), snap_arrays(snaps[k])))
+            lines.append('C10 ref val %d' % o)
+        for k, o in sorted(pobj.items()):
+            vals.append((len(lines), [list(st['pool'][k])]))
+            lines.append('C10 ref val %d' % o)
+        checks.append((shared_at, st['shared'], vals, op))
+    return lines, checks
+
+
+# ---------------------------------------------------------------------------------------------
+# NaN coordinates: what `==` and `hash` do (IEEE comparison; model `Grid.eqNaN`, theorem `eq_refl_iff_no_nan`)
+
+def gen_nan_case(rng):
+    import copy as _copy
+    specs = []
+    first = G.gen_spec(rng, maxn=4)
+    for k in range(int(rng.integers(1, 4))):
+        spec = _copy.deepcopy(first) if (k > 0 and rng.random() < 0.6) else G.gen_spec(rng, maxn=4)
+        spec['nan'] = []
+        if rng.random() < 0.6:
+            for _ in range(int(rng.integers(1, 3))):
+                if spec['kind'] == 'reg':
+                    a = int(rng.choice([0, 2]))
+                else:
+                    a = int(rng.integers(0, len(spec['data'])))
+                spec['nan'].append([a, int(rng.integers(0, len(spec['data'][a])))])
+        specs.append(spec)
+    ops = []
+    n = len(specs)
+    for _ in range(int(rng.integers(1, 5))):
+        i = int(rng.integers(0, n))
+        op = str(rng.choice(['copy', 'dict', 'pickle', 'reversed', 'shifted', 'shift']))
+        if op in ('shift', 'shifted'):
+            ops.append([op, i, float(rng.choice([0.0, 0.5, -1.0]))])
+        else:
+            ops.append([op, i])
+        if op != 'shift':
+            n += 1
+    return {'family': 'nan', 'specs': specs, 'ops': ops}
+
+
+def nan_real_spec(spec, nan):
+    import copy as _copy
+    r = _copy.deepcopy(spec)
+    for a, e in spec['nan']:
+        r['data'][a][e] = nan
+    return r
+
+
+def run_nan_real(case):
+    """the real grids of a NaN case: (has-NaN flags, polar flags, == matrix, hashes, source of each copy) or None if an op raised"""
+    import warnings
+    grids, flags, src = [], [], []
+    with warnings.catch_warnings():
+        warnings.simplefilter('ignore')
+        for spec in case['specs']:
+            grids.append(G.build(nan_real_spec(spec, float('nan'))))
+            flags.append(bool(spec['nan']))
+            src.append(None)
+        done = []
+        for op in case['ops']:
+            g = grids[op[1]]
+            if op[0] == 'shifted' and g._coordinate_system != 'cartesian':
+                op = ['copy', op[1]]        # a polar shift goes through a conversion (C11): here a plain copy instead
+            try:
+                if op[0] in ('copy', 'dict', 'pickle'):
+                    grids.append(G.roundtrip(g, op[0]))
+                    src.append(op[1])
+                elif op[0] == 'reversed':
+                    grids.append(g.reversed())
+                    src.append(None)
+                elif op[0] == 'shifted':
+                    grids.append(g.shifted(op[2]))
+                    src.append(None)
+                else:
+                    if g._coordinate_system != 'cartesian':
+                        continue
+                    g.shift(op[2])
+                    src = [None if (k == op[1] or v == op[1]) else v for k, v in enumerate(src)]
+            except Exception as e:  # noqa
+                return {'error': '%s raised %s' % (op[0], type(e).__name__)}
+            done.append(op)
+            if op[0] != 'shift':
+                flags.append(flags[op[1]])
+        n = len(grids)
+        eq = [[None] * n for _ in range(n)]
+        for i in range(n):
+            for j in range(n):
+                try:
+                    eq[i][j] = bool(grids[i] == grids[j])
+                except Exception as e:  # noqa
+                    eq[i][j] = 'err:' + G.errkind(e)
+        hashes = [G.safe_hash(g) for g in grids]
+        snaps = [G.snap(g) for g in grids]
+    return {'flags': flags, 'eq': eq, 'hash': hashes, 'src': src, 'done': done, 'snaps': snaps}
+
+
+def nan_oracle(obs):
+    bad = []
+    if 'error' in obs:
+        return [('nan-op-raises', 'on a grid with NaN coordinates ' + obs['error'])]
+    n = len(obs['flags'])
+    for i in range(n):
+        if obs['hash'][i][0] != 'ok':
+            bad.append(('hash-raises', 'hash(grid) raised %s for a grid with NaN coordinates' % obs['hash'][i][1]))
+        if obs['src'][i] is not None and obs['hash'][i] != obs['hash'][obs['src'][i]]:
+            bad.append(('nan-copy-hash', 'a copy of a grid with NaN coordinates has another hash'))
+        for j in range(n):
+            if not isinstance(obs['eq'][i][j], bool):
+                bad.append(('eq-raises', 'g%d == g%d raised %s in a case with NaN coordinates' % (i, j, obs['eq'][i][j])))
+                continue
+            if obs['eq'][i][j] != obs['eq'][j][i]:
+                bad.append(('eq-symm', 'g%d == g%d is %s but g%d == g%d is %s (NaN coordinates)' % (i, j, obs['eq'][i][j], j, i, obs['eq'][j][i])))
+            if not obs['flags'][i] and not obs['flags'][j]:
+                want = G.ident(obs['snaps'][i]) == G.ident(obs['snaps'][j])
+                if obs['eq'][i][j] is not want:
+                    bad.append(('eq-identical' if want else 'eq-differ', 'NaN-free grids in a NaN case: == is %s, identity %s' % (obs['eq'][i][j], want)))
+    return bad
+
+
+def nan_model_lines(case, done):
+    lines = ['C10 reset']
+    nds = []
+    for spec in case['specs']:
+        lines.append(G.new_line('C10', nan_real_spec(spec, 0.0)))
+        nds.append(spec_ndim(spec))
+    for op in done:
+        if op[0] in ('copy', 'dict', 'pickle'):
+            lines.append('C10 copy %d' % op[1])
+        elif op[0] == 'reversed':
+            lines.append('C10 reversed %d' % op[1])
+        else:
+            lines.append('C10 %s %d %s' % (op[0], op[1], rat_list([op[2]] * nds[op[1]])))
+        if op[0] != 'shift':
+            nds.append(nds[op[1]])
+    return lines
+
+
+DIRECTED_NAN = [
+    {'family': 'nan', 'specs': [dict(S('c', 'uns', [[0.0, 1.0], [1.0, 2.0]]), nan=[[0, 1]]), dict(S('c', 'uns', [[0.0, 1.0], [1.0, 2.0]]), nan=[])],
+     'ops': [['copy', 0], ['pickle', 0], ['copy', 1], ['dict', 0]]},
+    {'family': 'nan', 'specs': [dict(S('c', 'sep', [[0.0, 1.0, 2.0], [1.0, 2.0]]), nan=[[1, 0]]), dict(S('c', 'sep', [[0.0, 1.0, 2.0], [1.0, 2.0]]), nan=[[1, 0]])],
+     'ops': [['reversed', 0], ['shift', 1, 0.5], ['copy', 1]]},
+    {'family': 'nan', 'specs': [dict(S('c', 'reg', [[1.0, 0.5], [2, 3], [0.0, 0.0]]), nan=[[0, 1]]), dict(S('p', 'reg', [[1.0, 0.5], [2, 3], [0.0, 0.0]]), nan=[[2, 0]]),
+                                dict(S('c', 'reg', [[1.0, 0.5], [2, 3], [0.0, 0.0]]), nan=[])],
+     'ops': [['copy', 0], ['dict', 1], ['shifted', 2, -1.0], ['copy', 2]]},
+]
+
+
+def dis(ctx, stream, detail, key=None):
+    ctx.count('disagree:' + stream)
+    ctx.disagree(stream, detail, key)
+
+
 def run(ctx):
     ctx.rule = ('histories over a store of live grids: 1-3 base grids (Cartesian/polar; regular/separated incl. ragged/'
                 'unstructured; 1-3 D; dyadic values; optional twin differing in exactly one of system/kind/value/size/weights/'
@@ -499,7 +963,11 @@ def run(ctx):
                 'scalar/0-d array; weights likewise; twins with int64/int32/int16/int8/bool/Python-int coordinates; scale/shift '
                 'arguments as Python/NumPy scalars, 0-d, one-element arrays/lists, float32/longdouble arrays, lists, tuples), '
                 'then copy / to_dict+from_dict / pickle round trips, independent reconstruction (optionally with '
-                'integer dtype), scaled/shifted/reversed and their in-place forms. After EVERY operation all live grids are '
+                'integer dtype), scaled/shifted/reversed and their in-place forms, reading .weights (materialises the cached '
+                'weights: identity must not move). Plus float-shift histories: Cartesian float64 grids with dyadic or non-dyadic values '
+                'shifted (in place / copying) by amounts below half an ulp of every coordinate (absorbed: == stays True, hash the '
+                'same), partly absorbed, or rounded; the model rounds every stored sum to nearest-even binary64 and must reproduce '
+                'representation, == matrix and hash bit for bit. After EVERY operation all live grids are '
                 're-read: snapshots (aliasing), the full == matrix, and all hashes. Oracle: == must coincide with identity of '
                 '(system, kind, coordinate arrays) read from the objects; reflexive/symmetric/transitive; equal => same hash; '
                 'hash never raises; untouched grids keep their snapshot; the mutated grid has the specified new coordinates (each axis '
@@ -510,12 +978,35 @@ def run(ctx):
                         'float arithmetic on the generated dyadic values is exact (checked per case; inexact cases skip the exact hash tie)',
                         'scale on a Cartesian separated grid with an axis of fewer than two points and no stored weights raises IndexError '
                         '(automatic weights undefined) and is treated as outside the quantifier']
-    n = ctx.scale(2500, 20000)
-    cases = [(c, 'directed') for c in DIRECTED + DIRECTED_SHARED]
+    n = ctx.scale(2500, 13000)
+    cases = [(c, 'directed') for c in DIRECTED + DIRECTED_SHARED + DIRECTED_FLOAT]
     for k in range(n):
         cases.append((gen_case(ctx.rng, big=(ctx.tier == 'thorough' and k % 4 == 0)), 'random'))
+    for k in range(ctx.scale(300, 2000)):
+        cases.append((gen_float_case(ctx.rng), 'float-shift'))
     all_lines = []
     plan = []
+    nan_plan = []
+    ref_plans = []
+    nan_cases = list(DIRECTED_NAN) + [gen_nan_case(ctx.rng) for _ in range(ctx.scale(250, 1500))]
+    for case in nan_cases:
+        obs = run_nan_real(case)
+        for key, what in nan_oracle(obs):
+            ctx.violation(key, what, case)
+        ctx.count('family:nan')
+        if 'error' in obs:
+            continue
+        n = len(obs['flags'])
+        ctx.count('nan:grids-with-nan', sum(obs['flags']))
+        ctx.count('nan:grids-without-nan', n - sum(obs['flags']))
+        ctx.count('nan:self-comparison-false', sum(1 for i in range(n) if obs['eq'][i][i] is False))
+        ctx.case(None, nontrivial_key=('nan', tuple(o[0] for o in obs['done']), tuple(obs['flags']),
+                                       tuple(sp['kind'] for sp in case['specs'])) if any(obs['flags']) else None)
+        lines = nan_model_lines(case, obs['done'])
+        first = len(lines)
+        lines += ['C10 eqnan %d %d %d %d' % (i, j, obs['flags'][i], obs['flags'][j]) for i in range(n) for j in range(n)]
+        nan_plan.append((case, obs, len(all_lines) + first, n))
+        all_lines += lines
     for case, label in cases:
         steps = check_case(ctx, case, label)
         lines = ['C10 reset']
@@ -526,6 +1017,11 @@ def run(ctx):
             op = st['op']
             lines += model_op_lines(op, mpool)
             m = {'op': len(lines) - 1}
+            if op[0] == 'rtas' and unknown_names(op) and st['status'] == 'ok':
+                # the implementation built a grid the model does not have: only the status is compared (and differs)
+                m['n'] = 0
+                marks.append(m)
+                break
             nlive = len(st['obs']['snaps'])
             m['show'] = len(lines)
             lines += ['C10 show %d' % k for k in range(nlive)]
@@ -533,6 +1029,8 @@ def run(ctx):
             lines += ['C10 eqrow %d' % k for k in range(nlive)]
             m['hash'] = len(lines)
             lines += ['C10 hash %d' % k for k in range(nlive)]
+            m['kinds'] = len(lines)
+            lines.append('C10 kinds')
             m['n'] = nlive
             marks.append(m)
         if mpool.keys:
@@ -541,10 +1039,37 @@ def run(ctx):
             lines.append('C10 arrs')
             ctx.count('cases-with-caller-arrays')
             ctx.count('aliased-constructor-inputs', sum(1 for op in case['ops'] if op[0] == 'new' and aliased(op[1])))
+        rlines, rchecks = ref_plan(case, steps)
         plan.append((case, steps, len(all_lines), marks))
         all_lines += lines
+        ref_plans.append((case, len(all_lines), rchecks))
+        all_lines += rlines
     out = ctx.model(all_lines)
     inexact = 0
+    for case, obs, first, n in nan_plan:
+        ctx.traces_validated += 1
+        model = [[out[first + i * n + j] for j in range(n)] for i in range(n)]
+        real = [['ok 1' if obs['eq'][i][j] is True else 'ok 0' if obs['eq'][i][j] is False else 'E' for j in range(n)] for i in range(n)]
+        if model != real:
+            dis(ctx, 'C10 eq NaN', {'case': case, 'impl': obs['eq'], 'model': model, 'has-nan': obs['flags']})
+    for case, rbase, rchecks in ref_plans:
+        for shared_at, real_shared, vals, op in rchecks:
+            ctx.traces_validated += 1
+            ctx.count('ref:steps')
+            ans = out[rbase + shared_at]
+            if ans != 'ok %d' % real_shared:
+                ctx.count('ref:shared-arrays-in-implementation', real_shared)
+                dis(ctx, 'C10 ref shared', {'case': case, 'after': op, 'impl-shared-array-pairs': real_shared, 'model': ans})
+                break
+            bad = None
+            for at, real in vals:
+                ma = G.parse_rat_lists(out[rbase + at].split(' ', 1)[1]) if out[rbase + at].startswith('ok ') else None
+                if ma is None or len(ma) != len(real) or not all(G.lists_close(a, b) for a, b in zip(ma, real)):
+                    bad = {'case': case, 'after': op, 'impl': real, 'model': out[rbase + at][:200]}
+                    break
+            if bad is not None:
+                dis(ctx, 'C10 ref values', bad)
+                break
     for case, steps, base, marks in plan:
         for st, m in zip(steps, marks):
             op = st['op']
@@ -552,31 +1077,68 @@ def run(ctx):
             mstatus = 'ok' if ans.startswith('ok') else 'err:' + ans.split(' ')[1]
             ctx.traces_validated += 1
             if mstatus != st['status']:
-                ctx.disagree('C10 op status', {'case': case, 'op': op, 'impl': st['status'], 'model': ans})
+                dis(ctx, 'C10 op status', {'case': case, 'op': op, 'impl': st['status'], 'model': ans})
                 break
             obs = st['obs']
             stop = False
+            if 'kinds' in m:
+                # `Coords.kind` of every live grid (0 regular, 1 separated, 2 unstructured) against the classes of the real coordinates
+                real_k = 'k' + ''.join({'reg': '0', 'sep': '1', 'uns': '2'}[sn['kind']] for sn in obs['snaps'])
+                if out[base + m['kinds']] != 'ok ' + real_k:
+                    dis(ctx, 'C10 kinds', {'case': case, 'after': op, 'impl': real_k, 'model': out[base + m['kinds']]})
+                    break
+            if op[0] in ('shiftf', 'shiftedf') and st['status'] == 'ok':
+                # the prediction of `shiftF_keeps_iff_absorbs` (made before the op) against what the shift did to the identity
+                src = st['before'][op[1]]
+                if op[0] == 'shiftedf':
+                    kept = obs['eq'][op[1]][len(obs['snaps']) - 1] is True
+                else:
+                    kept = [list(map(float, a)) for a in obs['snaps'][op[1]]['data']] == [list(map(float, a)) for a in src['data']]
+                ctx.traces_validated += 1
+                ctx.count('absorbs:' + ('kept' if kept else 'changed'))
+                real_vals = [[z] for z in src['data'][2]] if src['kind'] == 'reg' else src['data']
+                mv = G.parse_rat_lists(out[base + m['op'] - 2].split(' ', 1)[1])
+                if [[float(x) for x in a] for a in mv] != [[float(x) for x in a] for a in real_vals]:
+                    dis(ctx, 'C10 shiftvals', {'case': case, 'op': op, 'impl': real_vals, 'model': out[base + m['op'] - 2][:200]})
+                    break
+                if out[base + m['op'] - 1] != 'ok ' + ('1' if kept else '0'):
+                    dis(ctx, 'C10 absorbs', {'case': case, 'op': op, 'impl-identity-kept': kept, 'model': out[base + m['op'] - 1]})
+                    break
+            if st.get('dict') is not None:
+                # `toDict` of the model against what `to_dict()` wrote (the request just before the op)
+                ctx.traces_validated += 1
+                ctx.count('todict:' + st['dict']['type'])
+                d = compare_dict(out[base + m['op'] - 1], st['dict'], st['before'][op[1]])
+                if d is not None:
+                    dis(ctx, 'C10 to_dict', {'case': case, 'op': op, 'diff': d})
+                    break
             for k in range(m['n']):
                 ms = G.parse_show(out[base + m['show'] + k])
                 d = G.compare_show(ms, obs['snaps'][k], None, weights=False)    # weights are C11's business
                 if d is not None:
-                    ctx.disagree('C10 show', {'case': case, 'after': op, 'grid': k, 'diff': d})
+                    dis(ctx, 'C10 show', {'case': case, 'after': op, 'grid': k, 'diff': d})
                     stop = True
                     break
                 row = out[base + m['eqrow'] + k].split(' ')[1]
                 real_row = ''.join('1' if v is True else '0' if v is False else 'E' for v in obs['eq'][k])
                 if row != real_row:
-                    ctx.disagree('C10 eq', {'case': case, 'after': op, 'grid': k, 'impl': real_row, 'model': row},
+                    dis(ctx, 'C10 eq', {'case': case, 'after': op, 'grid': k, 'impl': real_row, 'model': row},
                                  key=None)
                     stop = True
                     break
                 if not G.exact_same(ms, obs['snaps'][k]):
+                    if case.get('float'):
+                        # the float model (every stored sum rounded to nearest-even binary64) must reproduce the bits
+                        dis(ctx, 'C10 float shift', {'case': case, 'after': op, 'grid': k, 'impl': obs['snaps'][k]['data'],
+                                                         'model': out[base + m['show'] + k][:300]})
+                        stop = True
+                        break
                     inexact += 1
                     continue
                 hk = obs['hash'][k]
                 want = G.hash_of_tokens(out[base + m['hash'] + k].split(' ')[1])
                 if hk[0] != 'ok' or hk[1] != want:
-                    ctx.disagree('C10 hash', {'case': case, 'after': op, 'grid': k, 'impl': hk, 'model-xxh64': want,
+                    dis(ctx, 'C10 hash', {'case': case, 'after': op, 'grid': k, 'impl': hk, 'model-xxh64': want,
                                               'tokens': out[base + m['hash'] + k][:200]})
                     stop = True
                     break
@@ -588,12 +1150,17 @@ def run(ctx):
                 real = {k: v for k, v in zip(st['pool_keys'], st['pool'])}
                 for key, marr in zip(m['mpool'].keys, model_arrs):
                     if key in real and [float(x) for x in marr] != [float(x) for x in real[key]]:
-                        ctx.disagree('C10 caller arrays', {'case': case, 'array': list(key)[:8], 'impl': real[key][:8]})
+                        dis(ctx, 'C10 caller arrays', {'case': case, 'array': list(key)[:8], 'impl': real[key][:8]})
                         break
     ctx.extra['hash_tie_skipped_inexact'] = inexact
 
 
 def replay(ctx, case):
+    if case.get('family') == 'nan':
+        bad = nan_oracle(run_nan_real(case))
+        for key, what in bad:
+            print('  fails:', key, '-', what)
+        return not bad
     bad = oracle(run_real(case))
     for key, what in bad:
         print('  fails:', key, '-', what)
